@@ -229,9 +229,34 @@ func (fx *FnExec) doCall(st *State, instr ssa.Instruction, c *ssa.CallCommon) []
 	return results
 }
 
-func (fx *FnExec) closureOf(v ssa.Value) *ssa.MakeClosure {
+func (fx *FnExec) closureOf(v ssa.Value) *ssa.MakeClosure { return closureOfValue(v) }
+
+func closureOfValue(v ssa.Value) *ssa.MakeClosure {
 	if mc, ok := v.(*ssa.MakeClosure); ok {
 		return mc
+	}
+	// a local variable that is assigned a function literal exactly once: f := func(){...}; f()
+	if ld, ok := v.(*ssa.UnOp); ok && ld.Op.String() == "*" {
+		if a, ok := ld.X.(*ssa.Alloc); ok && !a.Heap && a.Referrers() != nil {
+			var found *ssa.MakeClosure
+			for _, r := range *a.Referrers() {
+				switch s := r.(type) {
+				case *ssa.Store:
+					if s.Addr != a {
+						return nil
+					}
+					mc, isMC := s.Val.(*ssa.MakeClosure)
+					if !isMC || found != nil {
+						return nil
+					}
+					found = mc
+				case *ssa.UnOp, *ssa.DebugRef:
+				default:
+					return nil
+				}
+			}
+			return found
+		}
 	}
 	return nil
 }
